@@ -2,7 +2,7 @@
 # development aid: confirm a seeded change's demonstration.  usage: seed_confirm.sh <mutation-dir>
 # prints: clean=<rc> mutated=<rc>   (confirmed iff clean==0 and mutated!=0)
 D=$1; W=${SEED_WT:-/tmp/wt_seed}; B=$W/_b; S=$W
-cc_demo() { cc -O1 -g -w -I$B/include -I$S/include -I$S -I$S/compat -o /tmp/seed_demo "$D/demo.c" $B/lib/libevent.a -lpthread 2>/tmp/seed_demo_cc.log || { echo "demo-build-failed"; tail -3 /tmp/seed_demo_cc.log; return 1; }; }
+cc_demo() { cc -O1 -g -w -I$B/include -I$S/include -I$S -I$S/compat -o /tmp/seed_demo "$D/demo.c" $B/lib/libevent.a $B/lib/libevent_pthreads.a -lpthread 2>/tmp/seed_demo_cc.log || { echo "demo-build-failed"; tail -3 /tmp/seed_demo_cc.log; return 1; }; }
 cd $W && git checkout -q -- . && cmake --build _b >/dev/null 2>&1
 cc_demo && { timeout 120 /tmp/seed_demo >/dev/null 2>&1; c=$?; } || c=BUILD
 git apply "$D/patch.diff" && cmake --build _b >/dev/null 2>&1
